@@ -72,9 +72,11 @@ func VerifC14TxMeta() {
 	maxN := verifParam("N", 3)
 	nA := 1 + verifChoice("txFrames", maxN)
 	nB := 1 + verifChoice("metaFrames", maxN)
+	hashMode := verifChoice("checksum", 3) // 0 CRC64, 1 legacy FNV-1a, 2 absent
+	// legacy FNV-1a records: concrete data (else every VerifyHash asks the solver whether CRC64(x) = FNV-1a(x) has a solution)
+	c14Concrete = hashMode == 1
 	pA := c14NewPayload(nA, 0, c14Lens(1), c14PermEnds)
 	pB := c14NewPayload(nB, 8, c14Lens(2), c14PermEnds)
-	hashMode := verifChoice("checksum", 3) // 0 CRC64, 1 legacy FNV-1a, 2 absent
 	for _, p := range []*c14Payload{pA, pB} {
 		h := 0
 		switch hashMode {
